@@ -27,10 +27,13 @@ Record payload := mkPayload {
 
 (* monitor state *)
 Record mstate := mkM {
-  m_used : list N;        (* every id announced so far *)
-  m_pend : list pend      (* currently pending *)
+  m_used : list N;                    (* every id announced so far *)
+  m_pend : list pend;                 (* currently pending *)
+  m_streams : list (list N * nat)     (* every stream announced so far: path, first streamed index *)
 }.
-Definition m_init : mstate := mkM [] [].
+Definition m_init : mstate := mkM [] [] [].
+
+(* Path keys: a list index i is the key 2*i, a field name is an odd key. *)
 
 Fixpoint natl_eqb (a b : list nat) : bool :=
   match a, b with
@@ -62,11 +65,24 @@ Fixpoint ancestors (fuel : nat) (parents : list (N * N)) (l : N) : list N :=
            end
   end.
 
+(* the items of a streamed list from the first streamed index on are delivered by the stream, not
+   by the fragment that syntactically encloses the list: such a stream between [qp] and [ap] cuts
+   the enclosure *)
+Definition cut_by_stream (streams : list (list N * nat)) (qp ap : list N) : bool :=
+  existsb (fun st : list N * nat =>
+    let '(sp, start) := st in
+    prefixb qp sp && prefixb sp ap
+    && match nth_error ap (length sp) with
+       | Some k => N.even k && (N.of_nat start <=? N.div2 k)
+       | None => false
+       end) streams.
+
 (* [q] is an announced enclosing fragment of [a] *)
-Definition encloses (parents : list (N * N)) (q a : pend) : bool :=
+Definition encloses (parents : list (N * N)) (streams : list (list N * nat)) (q a : pend) : bool :=
   negb (p_stream q) && negb (p_stream a)
   && memN (p_label q) (ancestors (S (length parents)) parents (p_label a))
-  && prefixb (p_path q) (p_path a).
+  && prefixb (p_path q) (p_path a)
+  && negb (cut_by_stream streams (p_path q) (p_path a)).
 
 Fixpoint find_pend (id : N) (l : list pend) : option pend :=
   match l with
@@ -90,7 +106,9 @@ Fixpoint announce (ps : list pend) (st : mstate) : option mstate :=
   match ps with
   | [] => Some st
   | p :: r => if memN (p_id p) (m_used st) then None
-              else announce r (mkM (p_id p :: m_used st) (m_pend st ++ [p]))
+              else announce r (mkM (p_id p :: m_used st) (m_pend st ++ [p])
+                                   (if p_stream p then m_streams st ++ [(p_path p, p_next p)]
+                                    else m_streams st))
   end.
 
 (* 2. incremental entries: target pending, right kind, stream items contiguous *)
@@ -122,8 +140,9 @@ Fixpoint complete (cs : list N) (pd : list pend) : option (list pend) :=
 
 (* 4. no fragment announced in this payload has an enclosing fragment that is still pending
       after this payload *)
-Definition nesting_ok (parents : list (N * N)) (announced : list pend) (after : list pend) : bool :=
-  forallb (fun a => forallb (fun q => negb (encloses parents q a)) after) announced.
+Definition nesting_ok (parents : list (N * N)) (streams : list (list N * nat))
+  (announced : list pend) (after : list pend) : bool :=
+  forallb (fun a => forallb (fun q => negb (encloses parents streams q a)) after) announced.
 
 Definition mstep (parents : list (N * N)) (st : mstate) (p : payload) : option mstate :=
   match announce (pl_pending p) st with
@@ -135,7 +154,8 @@ Definition mstep (parents : list (N * N)) (st : mstate) (p : payload) : option m
       match complete (pl_completed p) pd2 with
       | None => None
       | Some pd3 =>
-        if nesting_ok parents (pl_pending p) pd3 then Some (mkM (m_used st1) pd3) else None
+        if nesting_ok parents (m_streams st1) (pl_pending p) pd3
+        then Some (mkM (m_used st1) pd3 (m_streams st1)) else None
       end
     end
   end.
